@@ -546,9 +546,14 @@ func (l *loopState) notifySteps() { //nolint:gocognit
 		// untypedInputData stores the resolved data
 		untypedInputData, err := l.resolveExpressions(inputData, l.data)
 		if err != nil {
-			// An error here often indicates a locking issue in a step provider. This could be caused
-			// by the lock not being held when the output was marked resolved.
-			panic(fmt.Errorf("cannot resolve expressions for %s (%w)", nodeID, err))
+			// The expression could not be evaluated with the data that is available at run time,
+			// for example a failing conversion function or an index that is out of range. It can also
+			// indicate a locking issue in a step provider. This could be caused by the lock not being
+			// held when the output was marked resolved.
+			l.logger.Errorf("Cannot resolve expressions for %s (%v)", nodeID, err)
+			l.recentErrors <- fmt.Errorf("cannot resolve expressions for %s (%w)", nodeID, err)
+			l.cancel()
+			return
 		}
 
 		// This switch checks to see if it's a node that needs to be run.
